@@ -37,9 +37,22 @@ type CReq struct {
 	S    []uint64 `json:"s,omitempty"`
 	T    []uint64 `json:"t,omitempty"`
 	Slot uint64   `json:"slot,omitempty"`
+	// Cancel: "pre" = the caller's context is already cancelled when the request arrives; "ext" = it is cancelled by a
+	// cancel step of another thread at a moment the scheduler chooses.
+	Cancel string `json:"cancel,omitempty"`
+	// Target (Kind "cancel"): thread and index of the request whose caller gives up.
+	Target []int `json:"target,omitempty"`
 }
 
 func (r CReq) String() string {
+	if r.Kind == "cancel" {
+		return fmt.Sprintf("cancel(T%d.%d)", r.Target[0], r.Target[1])
+	}
+	if r.Cancel != "" {
+		c := r
+		c.Cancel = ""
+		return c.String() + "{ctx:" + r.Cancel + "}"
+	}
 	switch r.Kind {
 	case "att", "atts", "atts-nokey", "atts-nildata":
 		var l []string
@@ -74,6 +87,11 @@ func attsN(keys []int, s, t uint64) CReq {
 	return r
 }
 func prop1(k int, slot uint64) CReq { return CReq{Kind: "prop", Keys: []int{k}, Slot: slot} }
+
+// withCtx returns r with the given cancellation mode; cancelOf is the step at which the caller of request idx of thread
+// th gives up.
+func withCtx(r CReq, mode string) CReq { r.Cancel = mode; return r }
+func cancelOf(th, idx int) CReq        { return CReq{Kind: "cancel", Target: []int{th, idx}} }
 func sign1(k int) CReq              { return CReq{Kind: "sign", Keys: []int{k}} }
 func signsN(keys ...int) CReq       { return CReq{Kind: "signs", Keys: keys} }
 
@@ -352,17 +370,44 @@ func (e *concEnv) mkScenario(cs CScenario, lockOnly bool, wantLinearizable bool)
 		keys := e.freshKeys(nkeys, cs.DescKeys)
 		var calls []*callRec
 		var bodies []func(s *sched.Sched)
+		type reqCtx struct {
+			ctx    context.Context
+			cancel context.CancelFunc
+		}
+		ctxs := map[[2]int]*reqCtx{}
+		for ti, th := range cs.Threads {
+			for ri, r := range th {
+				rc := &reqCtx{ctx: ctx}
+				if r.Cancel != "" {
+					rc.ctx, rc.cancel = context.WithCancel(ctx)
+					if r.Cancel == "pre" {
+						rc.cancel()
+					}
+				}
+				ctxs[[2]int{ti, ri}] = rc
+			}
+		}
 		for ti, th := range cs.Threads {
 			recs := make([]*callRec, len(th))
 			for ri, r := range th {
+				if r.Kind == "cancel" {
+					continue
+				}
 				recs[ri] = &callRec{thread: ti, idx: ri, req: r, call: -1, ret: -1}
 				calls = append(calls, recs[ri])
 			}
-			th := th
+			th, ti := th, ti
 			bodies = append(bodies, func(s *sched.Sched) {
 				for ri, r := range th {
+					if r.Kind == "cancel" {
+						s.Point("cancel")
+						if rc := ctxs[[2]int{r.Target[0], r.Target[1]}]; rc != nil && rc.cancel != nil {
+							rc.cancel()
+						}
+						continue
+					}
 					recs[ri].call = s.Now()
-					recs[ri].approved = runReq(ctx, rl, keys, r)
+					recs[ri].approved = runReq(ctxs[[2]int{ti, ri}].ctx, rl, keys, r)
 					recs[ri].ret = s.Now()
 				}
 			})
@@ -393,7 +438,20 @@ func (e *concEnv) mkScenario(cs CScenario, lockOnly bool, wantLinearizable bool)
 			for k := range finals {
 				finals[k] = e.readFinal(keys[k])
 			}
-			if ok, tried := linearizable(calls, nkeys, finals); !ok {
+			// A request whose caller gave up may be refused whatever the serial order says, provided it leaves no trace:
+			// it is then left out of the serial order altogether.
+			var lin []*callRec
+			for _, c := range calls {
+				refused := true
+				for _, a := range c.approved {
+					refused = refused && !a
+				}
+				if c.req.Cancel != "" && refused {
+					continue
+				}
+				lin = append(lin, c)
+			}
+			if ok, tried := linearizable(lin, nkeys, finals); !ok {
 				var l []string
 				for _, c := range calls {
 					l = append(l, fmt.Sprintf("T%d.%d %s [%d,%d] => %v", c.thread, c.idx, c.req, c.call, c.ret, c.approved))
@@ -467,6 +525,9 @@ func runConcShard(jobs []concJob, shard, nshards int, deadline time.Time) {
 		if i%nshards != shard {
 			continue
 		}
+		if os.Getenv("VERIF_DEBUG") != "" {
+			fmt.Fprintf(os.Stderr, "shard %d: scenario %s\n", shard, j.cs.Name)
+		}
 		sc := env.mkScenario(j.cs, j.lockOnly, j.linear)
 		st, viols, err := sched.Explore(sc, j.bound, deadline, env.outcomeClassifier())
 		mode := "rules"
@@ -483,7 +544,7 @@ func runConcShard(jobs []concJob, shard, nshards int, deadline time.Time) {
 		}
 		// Every violation must reproduce identically 5 times from its recorded choice list.
 		for _, v := range viols {
-			xs, fs, rerr := sched.Replay(sc, v.Choices, 5)
+			xs, fs, rerr := sched.Replay(sc, v.Choices, 5, v.PerG)
 			same := rerr == nil
 			for k := range xs {
 				found := false
@@ -606,7 +667,7 @@ func concFinish(run *ev.Run, results []shardResult, err error, rule string) int 
 		}
 		samples.Add(map[string]any{"scenario": r.Scenario, "mode": r.Mode, "threads": r.Threads, "executions": r.Stats.Executions})
 		for _, v := range r.Violations {
-			run.Violate(v.Key, v.What, map[string]any{"check": run.ID, "scenario": r.Def, "mode": r.Mode, "choices": v.Choices, "schedule": v.Schedule, "preemptions": v.Preemptions})
+			run.Violate(v.Key, v.What, map[string]any{"check": run.ID, "scenario": r.Def, "mode": r.Mode, "choices": v.Choices, "schedule": v.Schedule, "preemptions": v.Preemptions, "goroutine_mode": v.PerG})
 		}
 	}
 	run.Coverage = map[string]any{
